@@ -13,6 +13,8 @@ package main
 
 import (
 	"bytes"
+	"crypto/sha256"
+	"encoding/binary"
 	"fmt"
 	"os"
 	"strconv"
@@ -49,7 +51,7 @@ func main() {
 		Floors: map[string]int64{
 			"roundtrip_read_ok": 20000, "roundtrip_write_ok": 20000, "roundtrip_proto_ok": 5000, "roundtrip_compact_ok": 5000,
 			"ancestor_chains_depth3plus": 800, "key_pairs_equal": 500, "key_pairs_differ_in_instance_only": 500, "key_pairs_differ": 3000,
-			"dot_component_instances": 50,
+			"dot_component_instances":    50,
 			"rejected_wrong-hash-length": 400, "rejected_non-lowercase-hex-hash": 400, "rejected_bad-size": 400, "rejected_reserved-keyword-in-instance-name": 400,
 			"rejected_unknown-compressor": 400, "rejected_unknown-function": 400, "rejected_truncated-path": 400,
 			"rejected_hash-length": 200, "rejected_hash-chars": 200, "rejected_negative-size": 200, "rejected_instance_redundant-slash": 200, "rejected_instance_reserved-keyword": 200,
@@ -114,10 +116,23 @@ func body(w *run.Worker) {
 	}
 }
 
+// caseRng derives the case's generator from (seed, worker, group, index), like
+// c.Rng, but through a cryptographic hash. lib/gen.New mixes its (small) seed
+// words only by XOR-ing them into the low bits of the splitmix state, so the
+// streams of c.Rng for (worker w, index i) and (worker w', index i') coincide
+// for most pairs: the eight workers of this check generated almost the same
+// 24 k inputs eight times (measured: 23 539 of 23 818 distinct keys shared
+// between worker 0 and worker 1). Replays stay exact: the derivation uses only
+// values the replay file records.
+func caseRng(c *run.Case) *gen.Rng {
+	h := sha256.Sum256([]byte(fmt.Sprintf("C20|%d|%d|%s|%d", c.W.Seed, c.W.Index, c.Group, c.Index)))
+	return gen.New(binary.LittleEndian.Uint64(h[0:8]), binary.LittleEndian.Uint64(h[8:16]), binary.LittleEndian.Uint64(h[16:24]))
+}
+
 // ---- codec ----
 
 func codecCase(c *run.Case, w *run.Worker) {
-	r := c.Rng
+	r := caseRng(c)
 	s := caseSink{c, w}
 	cm := genComps(r, true)
 	u := genUUID(r)
@@ -176,7 +191,7 @@ func codecCase(c *run.Case, w *run.Worker) {
 // ---- curated malformed inputs ----
 
 func malformedCase(c *run.Case, w *run.Worker) {
-	r := c.Rng
+	r := caseRng(c)
 	s := caseSink{c, w}
 	c.Desc("12 curated malformed inputs")
 	for i := 0; i < 6; i++ {
@@ -319,7 +334,7 @@ func malformedCase(c *run.Case, w *run.Worker) {
 // ---- hostile input: mutations, token soup, arbitrary bytes ----
 
 func hostileCase(c *run.Case, w *run.Worker) {
-	r := c.Rng
+	r := caseRng(c)
 	s := caseSink{c, w}
 	c.Desc("16 hostile strings (mutated names, token soups, random bytes)")
 	for i := 0; i < 16; i++ {
@@ -419,7 +434,7 @@ type pset struct {
 }
 
 func setCase(c *run.Case, w *run.Worker) {
-	r := c.Rng
+	r := caseRng(c)
 	s := caseSink{c, w}
 	// Universe: few hashes/sizes shared across few instance names and functions.
 	nInst := r.Range(1, 4)
@@ -675,7 +690,7 @@ func setCase(c *run.Case, w *run.Worker) {
 
 func enumeratedCase(c *run.Case, w *run.Worker) {
 	s := caseSink{c, w}
-	c.Desc("enumerations: function enum values -1000..1000, every single-byte compact-binary prefix, every truncation of one encoding per function, RemoveUnsupportedDigestFunctions, KeyFormat.Combine")
+	c.Desc("enumerations: function enum values -1000..1000, every single-byte compact-binary prefix, every truncation of one encoding per function, RemoveUnsupportedDigestFunctions over all subsets of enum values 0..11")
 	in, _ := digest.NewInstanceName("enum/erated")
 	for e := -1000; e <= 1000; e++ {
 		for _, fb := range []int{0, 32, 40, 64, 96, 128, 7} {
